@@ -6,7 +6,7 @@
     modelled as exact round-half-even of that value (see the level note for the near-tie caveat).
     SHA-1 is not modelled: [mol_hash] is parametrised by it. *)
 From Coq Require Import ZArith QArith List String Ascii Bool.
-Require Import QV.Common.Outcome QV.Common.HFRound QV.Common.HFSort QV.Common.HFHash QV.Gen.HashConsts.
+Require Import QV.Common.Outcome QV.Common.HFRound QV.Common.HFBin64 QV.Common.HFSort QV.Common.HFHash QV.Gen.HashConsts.
 Import ListNotations.
 Open Scope Z_scope.
 
@@ -31,6 +31,14 @@ Definition prep_arr (n : Z) (x : fl) : Z :=
   match around n x with
   | RNegZero => 0
   | RK k => if below_flush n k then 0 else k
+  end.
+
+(* the same with numpy's actual algorithm on binary64: rint(fl(x * 10^n)) / 10^n (Common/HFBin64.v); it differs from
+   [prep_arr] only when the rounded product fl(x * 10^n) is a half-integer that the exact product is not *)
+Definition prep_arr64 (n : Z) (x : fl) : Z :=
+  match x with
+  | FNegZero => 0
+  | FQ q => let k := around64 n q in if below_flush n k then 0 else k
   end.
 
 (* float_prep, float / int branch: round, then -0.0 -> 0.0 *)
@@ -203,6 +211,10 @@ Definition check_pair (c : mol * mol * list (string * fl) * bool) : bool :=
 (* float_prep on one entry: (array branch?, n, x, k) *)
 Definition check_prep (c : bool * Z * fl * Z) : bool :=
   let '(arr, n, x, k) := c in (if arr then prep_arr n x else prep_scalar n x) =? k.
+(* numpy's algorithm: (n, x, k) *)
+Definition check_prep64 (c : Z * fl * Z) : bool := let '(n, x, k) := c in prep_arr64 n x =? k.
+(* the binary64 product: (x, n, x * 10.0**n as computed by the machine) *)
+Definition check_fl64 (c : Q * Z * Q) : bool := let '(x, n, y) := c in Qeq_bool (fl64 (x * inject_Z (pow10 n))) y.
 Fixpoint bonds_eqb (a b : list bond) : bool :=
   match a, b with
   | [], [] => true
